@@ -82,22 +82,42 @@ class SimParallel:
         return results
 
 
-class _SimFuture:
-    def __init__(self):
-        self._done = False
-        self._res = None
-        self._exc = None
+import concurrent.futures as _cf
+
+
+class _SimFuture(_cf.Future):
+    """a real Future (so that concurrent.futures.wait / as_completed accept it) whose work runs on simulated workers the moment
+    somebody needs a result"""
+
+    def __init__(self, executor):
+        super().__init__()
+        self._executor = executor
 
     def result(self, timeout=None):
-        if self._exc is not None:
-            raise self._exc
-        return self._res
+        if not self.done():
+            self._executor._run()
+        return super().result(timeout=0)
 
     def exception(self, timeout=None):
-        return self._exc
+        if not self.done():
+            self._executor._run()
+        return super().exception(timeout=0)
 
-    def done(self):
-        return self._done
+
+def _sim_wait(fs, timeout=None, return_when=_cf.ALL_COMPLETED):
+    fs = list(fs)
+    for f in fs:
+        if isinstance(f, _SimFuture) and not f.done():
+            f._executor._run()
+    return _cf.wait(fs, timeout=0, return_when=return_when)
+
+
+def _sim_as_completed(fs, timeout=None):
+    fs = list(fs)
+    for f in fs:
+        if isinstance(f, _SimFuture) and not f.done():
+            f._executor._run()
+    return _cf.as_completed(fs, timeout=0)
 
 
 class SimThreadPoolExecutor:
@@ -128,18 +148,18 @@ class SimThreadPoolExecutor:
             while queue:
                 fut, f, a, k = queue.pop(0)
                 sim.yield_point('task')
+                fut.set_running_or_notify_cancel()
                 try:
-                    fut._res = f(*a, **k)
+                    fut.set_result(f(*a, **k))
                 except kernel.SimAbort:
                     raise
                 except BaseException as e:
-                    fut._exc = e
-                fut._done = True
+                    fut.set_exception(e)
 
         sim.run_workers([worker] * min(self.max_workers, len(pending)))
 
     def submit(self, f, *a, **k):
-        fut = _SimFuture()
+        fut = _SimFuture(self)
         self._pending.append((fut, f, a, k))
         return fut
 
@@ -326,6 +346,7 @@ def sim_connect(db, *a, **k):
 
 def take_foreign_lock(sim, path, hold):
     """fault kind foreign_lock: another process holds the database exclusively for `hold` virtual seconds"""
+    release_foreign_lock(sim)
     c = _sq.connect(path, timeout=0, isolation_level=None)
     c.execute('BEGIN EXCLUSIVE')
     sim.foreign_lock = (c, sim.now + hold)
@@ -497,6 +518,12 @@ def install():
         ops.delayed = sim_delayed
     if hasattr(ops, 'ThreadPoolExecutor'):
         ops.ThreadPoolExecutor = SimThreadPoolExecutor
+        if hasattr(ops, 'wait'):
+            ops.wait = _sim_wait
+        if hasattr(ops, 'as_completed'):
+            ops.as_completed = _sim_as_completed
+        if hasattr(ops, 'concurrent'):
+            pass    # `concurrent.futures.wait(...)` through the package would block on simulated futures: not supported
     ds.sqlite3 = sqlproxy
     clock = types.SimpleNamespace(time=lambda: SIM.now if SIM is not None else kernel.EPOCH)
 
